@@ -1,12 +1,12 @@
 package pmc
 
 import (
-	"runtime/debug"
 	"context"
 	"encoding/hex"
 	"encoding/json"
 	"fmt"
 	"os"
+	"runtime/debug"
 	"sort"
 	"strings"
 	"sync"
@@ -64,7 +64,7 @@ type LState struct {
 	Dead         bool
 	Sent         []Sent
 	Commits      []CommitRec
-	Props        [][2]string // stored proposals (view, hash) at the current height
+	Props        [][2]string     // stored proposals (view, hash) at the current height
 	Rec          map[string]bool // successful stores at the current height
 	Early        map[int]bool    // future-height messages already delivered to (and cached by) this node
 	Approved     []string
@@ -143,9 +143,9 @@ type Engine struct {
 	// two diverging executions themselves violated is kept in LocalFound (each is re-validated by table-free replay).
 	Unsound    string
 	LocalFound []LocalFound
-	seenFP                                              map[string]bool
-	Outcomes                                            map[string]int
-	Samples                                             []string
+	seenFP     map[string]bool
+	Outcomes   map[string]int
+	Samples    []string
 }
 
 func NewWorld(c kit.Committee, desc bool, invalid map[int]map[string]bool) *World {
@@ -874,15 +874,21 @@ type TraceEvent struct {
 }
 
 type ReplayFile struct {
-	TwoHeight bool         `json:"two_height_enumeration,omitempty"`
-	C11Ext    bool         `json:"c11_extension_last_event,omitempty"`
-	Live      *LiveOpt     `json:"liveness_extension,omitempty"`
-	LiveLog   []string     `json:"liveness_log,omitempty"`
-	Property  string       `json:"property"`
-	Config    string       `json:"config"`
-	Violation Violation    `json:"violation"`
-	Events    []TraceEvent `json:"events"`
-	Engine    string       `json:"engine"`
+	TwoHeight bool          `json:"two_height_enumeration,omitempty"`
+	C11Ext    bool          `json:"c11_extension_last_event,omitempty"`
+	Live      *LiveOpt      `json:"liveness_extension,omitempty"`
+	LiveLog   []string      `json:"liveness_log,omitempty"`
+	SyncLive  *SyncLiveSpec `json:"liveness_after_sync,omitempty"`
+	Property  string        `json:"property"`
+	Config    string        `json:"config"`
+	Violation Violation     `json:"violation"`
+	Events    []TraceEvent  `json:"events"`
+	Engine    string        `json:"engine"`
+}
+
+type SyncLiveSpec struct {
+	Silent []int `json:"silent"`
+	Synced []int `json:"synced"`
 }
 
 func (e *Engine) Render(f Found) ReplayFile {
